@@ -1,46 +1,46 @@
 /- REGENERATED from /repo on every run by /verif/harness/cmd/extract — do not edit. -/
 namespace Ibx.Gen.FileStore
 
-/-- fields of `type Store struct` (fstore.go) as (name, kind); kind = map | slice | chan | plain -/
-def storeFields : List (String × String) := [("hashLock", "plain"), ("path", "plain"), ("mailPath", "plain"), ("messageCap", "plain"), ("bufReaderPool", "plain"), ("extHost", "plain")]
+/-- the kinds (map | slice | chan | plain) that occur among the fields of `type Store struct`, sorted, without duplicates -/
+def storeFields : List String := ["plain"]
 
-/-- "no" iff no Store field is a map / slice / channel and no field type mentions mbox or Message -/
+/-- "no" iff no Store field type contains a map / slice / channel type or names a type declared in package file (the mailbox struct, Message, …) -/
 def storeHasCache : String := "no"
 
-/-- "fresh" iff (*Store).mbox and (*Store).mboxFromHash both end in `return &mbox{…}` setting neither messages nor indexLoaded -/
+/-- "fresh" iff every composite literal of the mailbox struct (the struct embedding sync.RWMutex) in the package is keyed and sets neither its message list (only slice field) nor its loaded flag (only bool field) -/
 def mboxPerCall : String := "fresh"
 
-/-- per function: a top-level `if !mb.indexLoaded { … mb.readIndex() … }` precedes the first use of mb.messages -/
-def loadsIndexFirst : List (String × Bool) := [("getMessages", true), ("getMessage", true), ("removeMessage", true), ("newMessage", true), ("MarkSeen", true), ("PurgeMessages", true)]
+/-- per exported Store method that touches the message list (helpers inlined): on every path the first touch comes after `if !<loaded flag> { <loader>() }` (any equivalent layout, e.g. a helper `if <flag> { return nil }; return <loader>()`) or after an unconditional call of the loader; the loader is the function that sets the flag to true -/
+def loadsIndexFirst : List (String × Bool) := [("AddMessage", true), ("GetMessage", true), ("GetMessages", true), ("MarkSeen", true), ("PurgeMessages", true), ("RemoveMessage", true), ("VisitMailboxes", true)]
 
-/-- "truncates" iff the first statement of mbox.readIndex is `mb.messages = mb.messages[:0]` -/
+/-- "truncates" iff the first top-level statement of the index loader that touches the message list is `<list> = <list>[:0]` (or `= nil`) -/
 def readIndexResets : String := "truncates"
 
-/-- mbox.writeIndex: "tempThenRename" = os.Create(mb.indexPath + lit) … os.Rename(tmp, mb.indexPath); "createInPlace" = os.Create(mb.indexPath), no rename -/
+/-- the index writer (the function calling os.Rename, else the one creating dir/index.gob), helpers inlined: "tempThenRename" = the only file it creates is dir/index.gob<suffix> and os.Rename(<that file>, dir/index.gob) follows; "createInPlace" = it creates dir/index.gob itself, no rename -/
 def fileIndexWrite : String := "tempThenRename"
 
-/-- "yes" iff mbox.writeIndex is `if len(mb.messages) > 0 { … } else { … return mb.removeDir() }` -/
+/-- "yes" iff the index writer is one two-way test of len(<message list>) against 0 whose [empty] side only unlinks / os.RemoveAll(dir)s (the directory remover) and whose [nonempty] side removes nothing -/
 def writeIndexEmptyRemovesDir : String := "yes"
 
-/-- mbox.removeDir: "indexFirst" = os.Remove(mb.indexPath) before os.RemoveAll(mb.path); "removeAll" = only os.RemoveAll(mb.path) -/
+/-- the function calling os.RemoveAll: "indexFirst" = os.Remove(dir/index.gob) before the only os.RemoveAll(dir); "removeAll" = no unlink of the index before it -/
 def fileRemoveDir : String := "indexFirst"
 
-/-- last statement of Store.MarkSeen -/
+/-- Store.MarkSeen: the answer when the search loop over the message list (in the method or a helper it calls) matches nothing — the return guarded by the found-marker test right after the loop, or the final return the loop falls through to; "errNotExist" = storage.ErrNotExist (other results nil), "nil" = all nil -/
 def markSeenNotFound : String := "errNotExist"
 
-/-- last statement of mbox.getMessage -/
+/-- Store.GetMessage: the answer when the search loop over the message list (in the method or a helper it calls) matches nothing — the return guarded by the found-marker test right after the loop, or the final return the loop falls through to; "errNotExist" = storage.ErrNotExist (other results nil), "nil" = all nil -/
 def getNotFound : String := "errNotExist"
 
-/-- mbox.removeMessage: `if msg == nil { return … }` -/
+/-- Store.RemoveMessage: the answer when the search loop over the message list (in the method or a helper it calls) matches nothing — the return guarded by the found-marker test right after the loop, or the final return the loop falls through to; "errNotExist" = storage.ErrNotExist (other results nil), "nil" = all nil -/
 def removeNotFound : String := "errNotExist"
 
-/-- newMessage: `if cap > 0 { for len(mb.messages) >= cap { id := mb.messages[0].ID(); mb.removeMessage(id) } }` before generateID -/
+/-- the message constructor (the function building `Message{… Fid: id …}`): "evictFirstBeforeAdd" iff before the id is drawn there is a `for` loop whose condition, together with the `if`s around it, is exactly { len(<list>) >= C, C > 0 } (folded into the loop condition or not), without break / return, whose body passes <list>[0].ID() to a package function that rewrites the index -/
 def capLoopShape : String := "evictFirstBeforeAdd"
 
-/-- newMessage: is the drawn id compared with the ids already in the mailbox index (`for mb.hasID(id) { id = generateID(..) }`) -/
+/-- the message constructor: "skipsExisting" = the variable that becomes Fid is drawn by a package function G and then re-drawn by `for <has>(id) { … id = G(..) … }` (no break / return) where <has> is `for _, m := range <list> { if m.Fid == id { return true } }; return false`; "none" = one draw, no loop after it -/
 def fileIdCollisionCheck : String := "skipsExisting"
 
-/-- generateID = generatePrefix(date) + "-" + Sprintf("%04d", <-countChannel); layout 20060102T150405 (one-second resolution); process-wide counter i = (i + 1) % 10000 started from 0 in init() -/
+/-- the function G that draws Fid is `return P(t) + "-" + fmt.Sprintf("%04d", <-CH)` with P = `return t.Format("20060102T150405")` (one-second resolution) and CH a package-level `chan int` fed by a package function `for i := 0; ; i = (i + 1) % 10000 { c <- i }` that an init() starts with `go`: a process-wide counter that restarts at 0 with the process -/
 def idGenerator : String := "secondPlusCounterMod10000"
 
 end Ibx.Gen.FileStore
